@@ -22,21 +22,55 @@ Definition ref_code (rho : env) (e : expr) (expected : bool) : nat :=
   | ETypeError => 2
   end.
 
-Definition case := (expr * bool * list nat * bool * list step)%type.
+(* a transition may carry several guard entries (cond entries first, then unless entries); the sync
+   executor evaluates them in order and stops at the first one that does not hold, the async executor
+   evaluates all of them *)
+Definition case := (list (expr * bool) * list nat * bool * bool * list step)%type.
 
-Definition step_verdict (e : expr) (expected : bool) (logged : list nat) (cmp_reads : bool) (s : step) : nat :=
+Fixpoint entries_sync (rho : env) (es : list (expr * bool)) : nat * list nat :=
+  match es with
+  | [] => (1, [])
+  | (e, expected) :: r =>
+      let rd := snd (eval_closure rho (build e)) in
+      match guard_holds rho e expected with
+      | None => (2, rd)
+      | Some false => (0, rd)
+      | Some true => let '(c, rd') := entries_sync rho r in (c, rd ++ rd')
+      end
+  end.
+
+(* all evaluated; TypeError of any entry surfaces unless... (such cases are not generated) *)
+Fixpoint entries_async (rho : env) (es : list (expr * bool)) : nat * list nat :=
+  match es with
+  | [] => (1, [])
+  | (e, expected) :: r =>
+      let rd := snd (eval_closure rho (build e)) in
+      let '(c, rd') := entries_async rho r in
+      match guard_holds rho e expected with
+      | None => (2, rd ++ rd')
+      | Some false => ((if Nat.eqb c 2 then 2 else 0), rd ++ rd')
+      | Some true => (c, rd ++ rd')
+      end
+  end.
+
+Definition ref_entries (rho : env) (es : list (expr * bool)) : nat :=
+  fold_left (fun acc ee => match acc with
+                           | 1 => ref_code rho (fst ee) (snd ee)
+                           | n => n
+                           end) es 1.
+
+Definition step_verdict (es : list (expr * bool)) (logged : list nat) (is_async cmp_reads : bool) (s : step) : nat :=
   let rho := env_of (s_env s) in
-  let k := build e in
-  let m := code_of (guard_holds rho e expected) in
-  let mreads := filter (fun n => existsb (Nat.eqb n) logged) (snd (eval_closure rho k)) in
-  if negb (Nat.eqb (ref_code rho e expected) (s_ref s)) then 4
+  let '(m, rd) := if is_async then entries_async rho es else entries_sync rho es in
+  let mreads := filter (fun n => existsb (Nat.eqb n) logged) rd in
+  if negb is_async && negb (Nat.eqb (ref_entries rho es) (s_ref s)) then 4
   else if negb (Nat.eqb m (s_impl s)) then 2
   else if cmp_reads && negb (list_eqb Nat.eqb mreads (s_reads s)) then 2
   else 0.
 
 Definition verdict (c : case) : nat :=
-  let '(e, expected, logged, cmp_reads, steps) := c in
-  fold_left (fun acc s => if Nat.eqb acc 0 then step_verdict e expected logged cmp_reads s else acc) steps 0.
+  let '(es, logged, is_async, cmp_reads, steps) := c in
+  fold_left (fun acc s => if Nat.eqb acc 0 then step_verdict es logged is_async cmp_reads s else acc) steps 0.
 
 Definition st (env : list (nat * pyval)) (impl : nat) (reads : list nat) (ref : nat) : step :=
   {| s_env := env; s_impl := impl; s_reads := reads; s_ref := ref |}.
